@@ -48,6 +48,10 @@ type c08cCase struct {
 
 const c08cStyles = 6
 
+// c08cStyleRaw marks a file of the raw-file family: its content is not rendered
+// from a pattern list; the patterns are what c08cFileModel reads out of it.
+const c08cStyleRaw = 9
+
 // c08cRender writes the pattern list of one file in one of the documented shapes.
 func c08cRender(pats []string, style int) string {
 	var sb strings.Builder
@@ -407,6 +411,77 @@ func c08cDescribe(args []c08cArg) string {
 	return "[" + strings.Join(parts, ", ") + "]"
 }
 
+// c08cFileModel is the documented meaning of a pattern file
+// (docs/configuring_and_running_tests.md: "the path of a file that contains
+// patterns, one per line. Leading and trailing whitespace is discarded from
+// each line, blank lines are ignored, and lines that start with a pound-sign
+// (`#`) are treated as comments and ignored."): the lines are what stands
+// between line feeds; whitespace (blank, tab, carriage return, vertical tab,
+// form feed) is dropped from both ends of a line; a line with nothing left, or
+// whose first remaining character is '#', contributes nothing; every other
+// line is one pattern, taken as it stands — a '#' further on, blanks inside,
+// commas and quotes are pattern text.
+func c08cFileModel(content string) []string {
+	isSpace := func(c byte) bool {
+		return c == ' ' || c == '\t' || c == '\r' || c == '\v' || c == '\f' || c == '\n'
+	}
+	var pats []string
+	start := 0
+	for i := 0; i <= len(content); i++ {
+		if i < len(content) && content[i] != '\n' {
+			continue
+		}
+		lo, hi := start, i
+		start = i + 1
+		for lo < hi && isSpace(content[lo]) {
+			lo++
+		}
+		for hi > lo && isSpace(content[hi-1]) {
+			hi--
+		}
+		if lo == hi || content[lo] == '#' {
+			continue
+		}
+		pats = append(pats, content[lo:hi])
+	}
+	return pats
+}
+
+// c08cRawLines: the line alphabet of the raw-file family. Lines as they stand in
+// a file (without the line terminator): nothing, whitespace only, plain
+// patterns with blanks / tabs before, behind and inside, and '#' at every kind
+// of place — first character, first after indentation, directly behind text,
+// behind a blank or a tab inside the line, as the last character, as the first
+// character of a later component, alone.
+var c08cRawLines = []string{ //nolint:gochecknoglobals
+	"", " ", "\t",
+	"a", " a", "a ", "\ta/b \t", "a b/*", "a  b",
+	"#", "#a", " #a", "\t# a/b", "# a #b", "##",
+	"a#", "a#b", "a# b/*", "a/#b", "*/# b",
+	"a #b", "a # b", "a\t#b", "a #", "a\t#", "a b #c/**", "S/**/regression #42", "a/ #b/c", "a/\t# b",
+}
+
+// c08cRawFiles enumerates every sequence of 1..maxLines raw lines, each written
+// with LF after every line, with LF between the lines only, and with CRLF after
+// every line.
+func c08cRawFiles(maxLines int, emit func(lines []string, content string)) {
+	var rec func(cur []string)
+	rec = func(cur []string) {
+		if len(cur) > 0 {
+			emit(cur, strings.Join(cur, "\n")+"\n")
+			emit(cur, strings.Join(cur, "\n"))
+			emit(cur, strings.Join(cur, "\r\n")+"\r\n")
+		}
+		if len(cur) == maxLines {
+			return
+		}
+		for _, l := range c08cRawLines {
+			rec(append(append([]string{}, cur...), l))
+		}
+	}
+	rec(nil)
+}
+
 // c08cVerbatim: flag values that a command-line layer could mangle. A pattern
 // is a slash-separated list of name components, a component is any text
 // (names come from suite files, including user suites), so commas, quotes,
@@ -422,13 +497,15 @@ var c08cVerbatim = []string{ //nolint:gochecknoglobals
 	"-x/*", "--run", "-", "--known-flaky=a",
 	"", "a//b", "/a", "a/",
 	"[a]", "a;b", "{a,b}", "a|b", "$HOME/*", "%s/%d", "a\tb",
+	// round 5: '#' and blanks / tabs next to it; a direct value is never a comment and never trimmed
+	"#", "#a/b", "# a", "a #b", "S/**/regression #42", "a\t#b/*", "a# b", " #", "a # ", "\ta/b\t", " ",
 }
 
 // c08cVerbatimCases: every value alone, every ordered pair of values, and every
 // value before / after / between ordinary arguments (a direct plain pattern and
 // an @file), through each flag and in each command-line form.
 func c08cVerbatimCases(thorough bool, emit func(args []c08cArg, form int)) {
-	file := c08cArg{IsFile: true, Patterns: []string{"Suite A/x y", "s/*/b"}, Style: 2}
+	file := c08cArg{IsFile: true, Patterns: []string{"Suite A/x y", "s/*/b", "t/**/issue #7", "u/x\t# y/*"}, Style: 2}
 	file.Content = c08cRender(file.Patterns, file.Style)
 	plain := c08cArg{Direct: "**/c#d"}
 	for _, form := range []int{1, 2} {
@@ -475,14 +552,30 @@ func TestVerifC08Collect(t *testing.T) {
 		alphabet = append(alphabet, "a@b/**/*")
 		styles = []int{0, 1, 2, 3, 4, 5}
 	}
+	maxLines := 2
+	if rep.Thorough() {
+		maxLines = 3
+	}
+	// the two descriptions of the file format in this harness (the rendering styles and the reader model) must agree
+	for style := 0; style < c08cStyles; style++ {
+		for _, set := range append(c08cSubsets(append(append([]string{}, alphabet...), "a@b/**/*", "t/**/issue #7", "u/x\t# y/*"), 3), nil) {
+			if got := c08cFileModel(c08cRender(set, style)); strings.Join(got, "\x00") != strings.Join(set, "\x00") {
+				t.Fatalf("harness inconsistency: style %d renders %q as %q, which the file model reads as %q", style, set, c08cRender(set, style), got)
+			}
+		}
+	}
 	r.Rule = fmt.Sprintf("every subset of <=3 of the %d patterns %q x every presentation: each block of every set partition is a direct flag value (singletons) or an @file (<=2 pattern files), "+
 		"patterns of a file in every order, file written in each of %d styles (plain, no final newline, comments/blank lines, surrounding blanks, CRLF, indented comments), arguments in every order, "+
 		"optionally one more @file without any pattern (empty / comment only) at every position; each presentation given through each of the 4 flags (--run --skip --known-failing --known-flaky), "+
 		"alternating `--flag v` and `--flag=v`, parsed by the real flag set, converted by the real argsToPatterns. Oracle: the multiset of given patterns. "+
 		"A case is non-trivial when it has >=2 arguments of which >=1 is an @file; cases are distinct by construction. "+
-		"Verbatim family: %d direct flag values with a comma, double / single quote, leading / trailing / doubled blank, backslash, '=', leading '-', the empty string, empty components, brackets and other shell / format characters, "+
+		"Verbatim family: %d direct flag values with a comma, double / single quote, leading / trailing / doubled blank, backslash, '=', leading '-', the empty string, empty components, brackets and other shell / format characters, '#' first / behind a blank or tab / alone, a lone blank, "+
 		"each alone, twice, before / after a plain pattern and an @file, and in ordered pairs (quick: a third of them), through each of the 4 flags, once as `--flag v` and once as `--flag=v` (values with a leading '-' always as `--flag=v`): "+
-		"the flag set must hold exactly the values given and argsToPatterns must hand on exactly those patterns.", len(alphabet), alphabet, len(styles), len(c08cVerbatim))
+		"the flag set must hold exactly the values given and argsToPatterns must hand on exactly those patterns. "+
+		"Raw-file family: every sequence of 1..%d lines over a line alphabet of %d raw lines (empty, whitespace only, text with blanks / tabs before, behind and inside, '#' as first character, first after indentation, directly behind text, behind a blank or tab inside the line, last, first of a later component, alone), "+
+		"written with LF after every line, LF between lines only, CRLF; as the only value and (one-line files) before / after the same text as a direct flag value, through each of the 4 flags. "+
+		"Oracle: a reader model written from docs/configuring_and_running_tests.md (lines between line feeds, surrounding whitespace dropped, empty lines and lines whose first remaining character is '#' ignored, everything else verbatim); direct values verbatim.",
+		len(alphabet), alphabet, len(styles), len(c08cVerbatim), maxLines, len(c08cRawLines))
 	deadline := rep.Deadline()
 	var k int64
 	stop := false
@@ -511,6 +604,46 @@ func TestVerifC08Collect(t *testing.T) {
 			r.Count("verbatim-family", 1)
 			if k%701 == 5 {
 				r.Sample(cs)
+			}
+		}
+	})
+	// raw-file family: the file reader against the documented file format
+	c08cRawFiles(maxLines, func(lines []string, content string) {
+		pats := c08cFileModel(content)
+		file := c08cArg{IsFile: true, Patterns: pats, Style: c08cStyleRaw, Content: content}
+		presentations := [][]c08cArg{{file}}
+		if len(lines) == 1 {
+			// the same text by both routes: as a line of a file (trimmed, maybe a comment) and as a flag value (verbatim)
+			d := c08cArg{Direct: lines[0]}
+			presentations = append(presentations, []c08cArg{file, d}, []c08cArg{d, file})
+		}
+		for _, args := range presentations {
+			for _, flagName := range c08cFlagNames {
+				k++
+				if stop || !r.Mine(k) {
+					continue
+				}
+				if !deadline.IsZero() && k%64 == 0 && time.Now().After(deadline) {
+					r.NotExhaustive("budget reached in c08-collect")
+					stop = true
+					continue
+				}
+				cs := c08cCase{Flag: flagName, Args: args, Form: 1 + int(k%2)}
+				for _, a := range args {
+					if a.IsFile {
+						cs.Want = append(cs.Want, a.Patterns...)
+					} else {
+						cs.Want = append(cs.Want, a.Direct)
+					}
+				}
+				c08cJudge(t, r, files, cs, false)
+				if len(pats) >= 1 && strings.Join(pats, "\n") != strings.Join(lines, "\n") {
+					r.NonTrivial("") // something is dropped or trimmed and something is left
+				}
+				r.Count(fmt.Sprintf("raw-file-family:lines=%d,patterns=%d", len(lines), len(pats)), 1)
+				if k%2003 == 9 {
+					r.Sample(cs)
+				}
 			}
 		}
 	})
